@@ -18,7 +18,12 @@ class MachineryError(Exception):
 
 def _java(args, env=None, timeout=None, heap="2g", cwd=SPEC_DIR, gcthreads=2):
     gc = ["-XX:+UseSerialGC", "-XX:CICompilerCount=2"] if gcthreads <= 2 else ["-XX:+UseParallelGC", "-XX:ParallelGCThreads=%d" % gcthreads]
-    cmd = ["java"] + gc + ["-Xmx" + heap, "-Xss64m", "-cp", JAVA_CP, "tlc2.TLC"] + args
+    # TLC unpacks its standard modules into <java.io.tmpdir>/tlc-<n> on every start and leaves them there: keep that inside
+    # the run's own scratch directory (the -metadir argument), which is removed afterwards
+    tmp = []
+    if "-metadir" in args:
+        tmp = ["-Djava.io.tmpdir=" + args[args.index("-metadir") + 1]]
+    cmd = ["java"] + gc + tmp + ["-Xmx" + heap, "-Xss64m", "-cp", JAVA_CP, "tlc2.TLC"] + args
     e = dict(os.environ)
     if env:
         e.update(env)
